@@ -1,7 +1,11 @@
 import Proofs.C16
+import Proofs.TieParse
 #print axioms PV.Proofs.C16.translator_recognised_everything
 #print axioms PV.Proofs.C16.variants_are_the_seven
 #print axioms PV.Proofs.C16.all_entries_ok
 #print axioms PV.Proofs.C16.C16_tables_are_the_plane_groups
 #print axioms PV.Proofs.C16.C16_all_strings_parse
 #print axioms PV.Proofs.C16.C16_seven_groups
+#print axioms PV.Proofs.TieParse.declared_translated_parse
+#print axioms PV.Proofs.TieParse.trimMatches_braces
+#print axioms PV.Proofs.TieParse.from_operations_tie
